@@ -92,6 +92,11 @@ def _clear_caches():
     dep._DEF_CACHE.clear()
     dep._SUMMARY_CACHE.clear()
     try:
+        from . import panics
+        panics._RET_IV.clear()
+    except Exception:
+        pass
+    try:
         from .rules import panic_common
         panic_common._DB_CACHE.clear()
     except Exception:
